@@ -137,6 +137,9 @@ def _two_programs(tier: str):
                 for place in ("same", "outside", "other-task"):
                     for between in (False, True):
                         yield {"two": True, "ka": ka, "kb": kb, "order": order, "place": place, "between": between}
+                    if ka == kb:
+                        yield {"two": True, "ka": ka, "kb": kb, "order": order, "place": place, "between": False, "b_in": "update"}
+                        yield {"two": True, "ka": ka, "kb": kb, "order": order, "place": place, "between": False, "b_in": "helper-tasks"}
 
 
 def _two_streams(program, ch: Chooser) -> Result:  # noqa: C901, PLR0912, PLR0915
@@ -145,7 +148,8 @@ def _two_streams(program, ch: Chooser) -> Result:  # noqa: C901, PLR0912, PLR091
     loop.open()
     viols: list[dict] = []
     a1 = A(tag="A#1")
-    tags = {id(a1): "A#1"}
+    a_upd = A(tag="A#upd")
+    tags = {id(a1): "A#1", id(a_upd): "A#upd"}
     completions: list = []
     ended: dict = {}
     got: dict = {"a": [], "b": []}
@@ -225,11 +229,24 @@ def _two_streams(program, ch: Chooser) -> Result:  # noqa: C901, PLR0912, PLR091
             other = loop.create_task(other_task())
             await asyncio.sleep(0)
         async with ctx.scope("creator", a1, completion=done_cb):
-            box["a"] = ctx.stream(source_for("a", ka))
+            if program.get("b_in") != "helper-tasks":
+                box["a"] = ctx.stream(source_for("a", ka))
             if between:
                 async with ctx.scope("between"):
                     await asyncio.sleep(0)
-            box["b"] = ctx.stream(source_for("b", kb))
+            if program.get("b_in") == "update":
+                # the second stream is created where the state differs: inside an update block
+                with ctx.updated(a_upd):
+                    box["b"] = ctx.stream(source_for("b", kb))
+            elif program.get("b_in") == "helper-tasks":
+                # both streams are prepared by helper tasks that FINISH before anything is consumed
+                async def prepare(name, k):
+                    box[name] = ctx.stream(source_for(name, k))
+
+                await asyncio.gather(loop.create_task(prepare("a", ka)), loop.create_task(prepare("b", kb)))
+                await asyncio.sleep(0)
+            else:
+                box["b"] = ctx.stream(source_for("b", kb))
             if place == "same":
                 await consume(box.pop("a"), box.pop("b"))
             elif place == "other-task":
@@ -266,9 +283,10 @@ def _two_streams(program, ch: Chooser) -> Result:  # noqa: C901, PLR0912, PLR091
         for name, want_end in (("a", "closed" if order == "a-break-then-b" else "end"), ("b", "closed" if order == "b-aclose-then-a" else "end")):
             if ended.get(name) != want_end:
                 viols.append(viol("a-items", f"terminal/{w}", f"stream {name}: {want_end}", ended.get(name)))
-        bad_ctx = [x for x in inside if x[2] != ["inst", "A#1"]]
+        want_b_state = ["inst", "A#upd"] if program.get("b_in") == "update" else ["inst", "A#1"]
+        bad_ctx = [x for x in inside if x[2] != (want_b_state if x[0] == "b" else ["inst", "A#1"])]
         if bad_ctx:
-            viols.append(viol("b-creation-context", w, "generator body sees A#1", bad_ctx[:3]))
+            viols.append(viol("b-creation-context", w + (f"/b-created-in-{program['b_in']}" if program.get("b_in") else ""), "generator a sees A#1, generator b the state current where it was created", bad_ctx[:3]))
         # the creating scope completes exactly once, after it was left and both streams ended
         if len(completions) != 1:
             viols.append(viol("d-completion", f"count/{w}", 1, len(completions), timeline=timeline))
